@@ -266,7 +266,11 @@ def _flatten_mapper(ctx, model):
         check_identity_handler(ctx, "F", model, fm, n, mem)
     ctx.floor("FlattenMapper inherited pairs", pairs, 30)
     m, fn = model.func(f"{FL}:flatten")
-    ok = ast.unparse(fn.body[-1]).replace(" ", "") == "returnFlattenMapper()(expr)"
+    from ..rules import sole_result
+    rv_ = sole_result(fn, plain=True)
+    ok = rv_ is not None and rv_[0] == "call" and len(rv_) >= 5 and \
+        rv_[4] == ("call", "FlattenMapper", (), ()) and \
+        rv_[2] == (("param", fn.args.args[0].arg),)
     ctx.ob("P/flatten/entry", ok, m.loc(fn), "flatten = FlattenMapper()(expr)")
 
 
@@ -442,8 +446,16 @@ def _fold(ctx, model):
            "evaluate() treats only ValueError as 'cannot evaluate'" if ok else
            "ConstantFoldingMapperBase.evaluate swallows more than ValueError")
     ic = base.members.get("is_constant")
-    ok = ic is not None and ast.unparse(ic.node.body[-1]).replace(" ", "") == \
-        "returnnotbool(DependencyMapper()(expr))"
+    ok = False
+    if ic is not None:
+        from ..rules import sole_result
+        rv_ = sole_result(ic.node)
+        # not bool(deps)  /  not deps  /  len(deps) == 0
+        deps = ("call", "DependencyMapper()", (NODE,), (),
+                ("call", "DependencyMapper", (), ()))
+        ok = rv_ in (("unop", "Not", ("call", "bool", (deps,), ())),
+                     ("unop", "Not", deps),
+                     ("compare", ("Eq",), ("len", deps), (("const", 0),)))
     ctx.ob("P/fold/is_constant", ok, loc,
            "constant = no dependencies" if ok else
            "is_constant is not 'DependencyMapper()(expr) is empty'")
